@@ -231,7 +231,7 @@ def parse_assumptions(log_text):
             in_ax = True
             continue
         if in_ax:
-            m = re.match(r"^([A-Za-z_][A-Za-z0-9_.']*)\s*:", line)
+            m = re.match(r"^([A-Za-z_][A-Za-z0-9_.']*)\s*(:|$)", line)
             if m:
                 axioms.add(m.group(1))
             elif line.startswith(" ") or line.startswith("\t") or not line.strip():
@@ -309,3 +309,16 @@ def write_evidence(pid, ev):
     with open(os.path.join(d, pid + ".json"), "w") as f:
         json.dump(ev, f, indent=1, sort_keys=True)
         f.write("\n")
+
+
+def coq_eval(name, body, timeout=600):
+    """Evaluate a generated .v file (Eval vm_compute ...) against the compiled development; returns coqc's stdout."""
+    d = os.path.join(BUILD, "cases")
+    os.makedirs(d, exist_ok=True)
+    path = os.path.join(d, name + ".v")
+    with open(path, "w") as f:
+        f.write(body)
+    rc, out = run(["timeout", str(timeout), "coqc", "-noglob", "-Q", COQ, "Sameold", path], cwd=d, timeout=timeout + 30)
+    if rc != 0:
+        raise BuildError("coq-eval " + name, out)
+    return out
